@@ -32,6 +32,29 @@ type InCase struct {
 	K     kernel.Params `json:"kernel"`
 	Eng   EngCfg        `json:"eng"`
 	Conns []InConn      `json:"conns"`
+	// Early: Engine.Start runs in a goroutine of its own and the peers connect / send as soon as the
+	// listener exists, i.e. possibly while Start has not finished setting the engine up
+	Early bool `json:"early,omitempty"`
+}
+
+// startEngine starts the engine, in the foreground or (Early) in a goroutine so that traffic can
+// arrive while Start is still running. wait blocks until Start has returned and reports its error.
+func startEngine(c *InCase, w *World, ready func() bool) (wait func() error) {
+	if !c.Early {
+		err := w.Start()
+		return func() error { return err }
+	}
+	var err error
+	done := false
+	simrt.GoNamed("engine-start", func() {
+		err = w.Start()
+		done = true
+	})
+	simrt.WaitUntil("listener-exists", func() bool { return done || ready() })
+	return func() error {
+		simrt.WaitUntil("engine-started", func() bool { return done })
+		return err
+	}
 }
 
 func (c *InCase) copy() *InCase {
@@ -104,6 +127,7 @@ func genInCase(r *simrt.Rand, tier string) *InCase {
 		}
 		c.Conns = append(c.Conns, cn)
 	}
+	c.Early = r.Bool(0.12)
 	return c
 }
 
@@ -204,11 +228,17 @@ func runIn(t *testing.T, ci interface{}, trace bool) *common.Outcome {
 			runUDP(c, w, o)
 			return
 		}
-		if err := w.Start(); err != nil {
-			o.Infra = "engine start: " + err.Error()
-			return
+		started := startEngine(c, w, func() bool { return w.K.Listening(w.KAddr) })
+		defer func() {
+			started()
+			w.StopAll()
+		}()
+		if !c.Early {
+			if err := started(); err != nil {
+				o.Infra = "engine start: " + err.Error()
+				return
+			}
 		}
-		defer w.StopAll()
 		done := 0
 		var css []*ConnState
 		readsDuring := 0
@@ -281,6 +311,10 @@ func runIn(t *testing.T, ci interface{}, trace bool) *common.Outcome {
 			})
 		}
 		simrt.WaitStuck("peers-done", time.Second, func() bool { return done >= len(c.Conns) })
+		if err := started(); err != nil {
+			o.Infra = "engine start: " + err.Error()
+			return
+		}
 		w.EnterFair()
 		simrt.Quiesce(time.Second)
 		multi := 0
@@ -375,11 +409,17 @@ func runUDP(c *InCase, w *World, o *common.Outcome) {
 		}
 		r.got = append(r.got, append([]byte(nil), data...))
 	})
-	if err := w.Start(); err != nil {
-		o.Infra = "engine start: " + err.Error()
-		return
+	started := startEngine(c, w, func() bool { return w.K.DgramAt(w.KAddr) != nil })
+	defer func() {
+		started()
+		w.StopAll()
+	}()
+	if !c.Early {
+		if err := started(); err != nil {
+			o.Infra = "engine start: " + err.Error()
+			return
+		}
 	}
-	defer w.StopAll()
 	done := 0
 	for i, plan := range c.Conns {
 		plan := plan
@@ -410,6 +450,10 @@ func runUDP(c *InCase, w *World, o *common.Outcome) {
 		})
 	}
 	simrt.WaitStuck("remotes-done", time.Second, func() bool { return done >= len(c.Conns) })
+	if err := started(); err != nil {
+		o.Infra = "engine start: " + err.Error()
+		return
+	}
 	w.EnterFair()
 	simrt.Quiesce(time.Second)
 	total := 0
